@@ -10,8 +10,7 @@ from harness.drivers import gen_dsl as G
 
 ID = "C21"
 PROP_FILE = "Props/C21.v"
-THEOREMS = ["C21_stub"]
-THEOREMS_FINAL = ["C21_plan_mutator_is_insert_spec", "C21_head_response_reaches_host", "C21_tail_responses_swallowed",
+THEOREMS = ["C21_plan_mutator_is_insert_spec", "C21_head_response_reaches_host", "C21_tail_responses_swallowed",
             "C21_exception_reaches_host"]
 COQ_IMPORTS = "From BV Require Import Gen.Coalg Gen.PyGen Gen.Mutators Gen.InsertSpec Gen.Tie."
 PARALLEL = True
